@@ -157,6 +157,8 @@ pub fn decode(data: &[u8], prof: &Profile) -> Scenario {
         } else {
             1
         };
+        // now and then a job also claims the output name it shares with its pair partner
+        let parts = if feat & F_MULTI != 0 && kind != Kind::Always && pb % 5 == 0 { parts | 8 } else { parts };
         let active = !src.chance(40);
         let p_dep = if i > 3 { (prof.p_dep * 3 / (i as u16)).max(24) } else { prof.p_dep };
         let mut ign = vec![];
@@ -168,6 +170,7 @@ pub fn decode(data: &[u8], prof: &Profile) -> Scenario {
             if (255 - db as u16) < p_dep {
                 let m = 1u8 << (db % 3);
                 let m = if db % 7 == 0 { m | 1 } else { m };
+                let m = if db % 5 == 0 { m | 8 } else { m };
                 deps.push((u, m));
             }
         }
@@ -192,7 +195,7 @@ pub fn decode(data: &[u8], prof: &Profile) -> Scenario {
                 1 | 2 if feat & F_TOGGLE_DEP != 0 => {
                     if s > 0 {
                         let up = (b as usize * s) >> 8;
-                        Some(Edit::ToggleDep { down: s, up, mask: 1 << (b % 3) })
+                        Some(Edit::ToggleDep { down: s, up, mask: (1 << (b % 3)) | if b % 5 == 0 { 8 } else { 0 } })
                     } else {
                         None
                     }
@@ -205,8 +208,8 @@ pub fn decode(data: &[u8], prof: &Profile) -> Scenario {
                         Some(Edit::Bump(always[(a as usize * always.len()) >> 8]))
                     }
                 }
-                5 if feat & F_DELETE != 0 => Some(Edit::Delete(s, 1 + (b % 7))),
-                6 if feat & F_MULTI != 0 => Some(Edit::TogglePart(s, b % 3)),
+                5 if feat & F_DELETE != 0 => Some(Edit::Delete(s, (1 + (b % 7)) | if b >= 200 { 8 } else { 0 })),
+                6 if feat & F_MULTI != 0 => Some(Edit::TogglePart(s, if b >= 176 { 3 } else { b % 3 })),
                 7 if feat & F_BUMP != 0 => {
                     let always: Vec<usize> = (0..n).filter(|i| slots[*i].kind == Kind::Always).collect();
                     if always.is_empty() {
@@ -535,7 +538,7 @@ pub fn mutate_from_corpus(data: &[u8], prof: &Profile, corpus: &[Scenario], p_co
                     }
                     3 => (0..n).find(|i| sc.slots[*i].kind == Kind::Always).map(Edit::Bump),
                     4 => Some(Edit::Delete(sl, 1 + (c / 6) % 7)),
-                    _ => Some(Edit::TogglePart(sl, (c / 6) % 3)),
+                    _ => Some(Edit::TogglePart(sl, (c / 6) % 4)),
                 };
                 if let (Some(e), true) = (e, step > 0) {
                     sc.steps[step].edits.push(e);
